@@ -516,6 +516,7 @@ pub fn walk(
     let mut counts: BTreeMap<u64, u32> = BTreeMap::new();
     let mut pos = start.clone();
     let mut board = board0;
+    let entry_sel = crate::engine::fp(start) >> 7;
     let mut prev: Option<(Pos, Board, Mv)> = None;
     loop {
         *counts.entry(rep_key(&pos)).or_insert(0) += 1;
@@ -545,7 +546,8 @@ pub fn walk(
             break;
         }
         let npos = pos.apply(m);
-        let nboard = board.make_move_new(bridge::mv(m));
+        // histories advance through make_move_new and the in-place make_move alternately
+        let nboard = bridge::advance(&board, bridge::mv(m), entry_sel + moves.len() as u64, &board0);
         prev = Some((pos, board, m));
         pos = npos;
         board = nboard;
